@@ -35,7 +35,7 @@ for pid in sorted(checks.keys()):
         "evidence_file": f"/verif/evidence/{pid}.json",
         "replay_cmd_template": "cat {path}  # the file holds the concrete inputs; ./run re-replays it natively on every run",
         "engine": "symgo",
-        "technique": "solver-based bounded symbolic execution of the real Go code (go/ssa -> SMT-LIB2, z3), counterexamples replayed natively",
+        "technique": c.get("technique", "solver-based bounded symbolic execution of the real Go code (go/ssa -> SMT-LIB2, z3), counterexamples replayed natively"),
         "level_claimed": {
             "category": "model_checking",
             "text": "Every path of the harnesses (" + hs + ") through the real lexer/parser/evaluator code is explored with symbolic inputs; each assertion is discharged by z3 as 'path condition AND NOT assertion is unsat', so within the stated bounds the property holds for every input value, not for a sample. Bounds: " + c["bounds"] + ".",
